@@ -127,6 +127,28 @@ pub fn check_case(b: &[u8], op: &Value) -> Option<(String, String)> {
                 Ok(Ok(())) => None,
             }
         }
+        "read-sequence" => {
+            // two models written back to back into one stream are both read back from the reader
+            let mut buf = b.to_vec();
+            buf.extend_from_slice(b);
+            let r = guard(|| {
+                let mut rdr = FaultReader { data: &buf, pos: 0, chunk: k, fail_at: None, kind: 0, fired: false };
+                let m1 = Model::read(&mut rdr).map_err(|e| format!("first read: {e}"))?;
+                let m2 = Model::read(&mut rdr).map_err(|e| format!("second read (the stream still held a complete model): {e}"))?;
+                if m1.to_vec().map_err(|e| e.to_string())? != b || m2.to_vec().map_err(|e| e.to_string())? != b {
+                    return Err("a model read back from the stream re-serialises differently".into());
+                }
+                if rdr.pos != buf.len() {
+                    return Err(format!("{} bytes of the stream were not consumed", buf.len() - rdr.pos));
+                }
+                Ok::<(), String>(())
+            });
+            match r {
+                Err(p) => v("read-sequence-panic", p),
+                Ok(Err(e)) => v("read-sequence", format!("two models in one stream, reader delivering {k} bytes per call: {e}")),
+                Ok(Ok(())) => None,
+            }
+        }
         "tail" => {
             let tails: [Vec<u8>; 4] = [vec![], vec![0], b.to_vec(), (0..64u32).map(|i| (i * 37 + 11) as u8).collect()];
             let t = &tails[k];
@@ -326,6 +348,9 @@ pub fn ops_for(len: usize, tier: Tier) -> Vec<Value> {
     for c in [1usize, 2, 7, 1 << 20] {
         ops.push(json!({"op": "read-chunked", "k": c}));
     }
+    for c in [1usize, 7, 1 << 20] {
+        ops.push(json!({"op": "read-sequence", "k": c}));
+    }
     for t in 0..4 {
         ops.push(json!({"op": "tail", "k": t}));
     }
@@ -440,7 +465,7 @@ pub fn run(tier: Tier) -> ! {
     chk.sample(json!({"model": "empty", "op": {"op": "write-fault", "k": 30, "fault": 1, "chunk": 1}, "meaning": "writer takes 1 byte per call and returns Ok(0) after 30 bytes: write must fail, bytes taken must be a prefix"}));
     chk.assume("bincode's standard configuration and std::io::Read::read_exact semantics (Interrupted is retried) are trusted");
     chk.finish(
-        "per model: round trip (slice, reader, writer), 4 reader chunkings, 4 tails, EVERY proper prefix through read_slice and read, EVERY single-byte change of the 25 header bytes, a reader and a writer failing (Err / Ok(0) / Interrupted-once / transient-Err-once) at EVERY byte position with 3 chunk sizes; non-trivial = every fault or truncation case; distinct by construction",
+        "per model: round trip (slice, reader, writer), 4 reader chunkings, two models back to back in one stream (3 chunkings), 4 tails, EVERY proper prefix through read_slice and read, EVERY single-byte change of the 25 header bytes, a reader and a writer failing (Err / Ok(0) / Interrupted-once / transient-Err-once) at EVERY byte position with 3 chunk sizes; non-trivial = every fault or truncation case; distinct by construction",
         true,
         &replay,
     )
